@@ -9,6 +9,7 @@ unchanged.  Real Server handlers + real Attribute.read_value/write_value under t
 import struct
 
 from vf.e1 import harness, untraced
+from vf import flags as _flags
 from vf import detloop
 from vf.props.gattstub import StubBearer, StubEnhancedBearer, make_server, feed, pdus
 
@@ -207,3 +208,6 @@ def read_gate_after_entitled_access(perm: int, enc: bool, auth: bool, s0: int, s
     if allowed_read(perm, enc, auth) or perm % 2 == 0:
         return True          # allowed, or the recorded READABLE finding (checked by read_gate)
     return r0[0] == r1[0]
+
+
+_flags.int_format_placeholder = True     # log f-strings with symbolic ints are not the subject here (see vf/flags.py)
